@@ -1638,7 +1638,20 @@ class SubstitutionHandler(Handler):
         """
         for node, fileid, line in self.unreplaced_nodes:
             substitution = self.substitution_definitions.get(node.name)
-            if substitution is not None:
+            if substitution is not None and any(
+                descendant is node
+                for child in substitution
+                for descendant in iterate_nodes(child)
+            ):
+                # This reference is part of the very definition it names: sharing the
+                # definition's children with it would make the tree cyclic.
+                self.context.diagnostics[fileid].append(
+                    SubstitutionRefError(
+                        f'Circular substitution definition referenced: "{node.name}"',
+                        line,
+                    )
+                )
+            elif substitution is not None:
                 node.children = substitution
             else:
                 self.context.diagnostics[fileid].append(
